@@ -206,6 +206,36 @@ func (h *H) unary(a vec, r *lib.Rand, names []string) {
 	})
 }
 
+// capBoundary checks the writer's entry cap on the implementation (no model case: too large for the extracted model).
+func (h *H) capBoundary(a vec, over bool) {
+	in := lib.L(lib.N(5), lib.NI(len(a)))
+	h.guard("cap", in, func() {
+		va := cluster.XVNewVV(a)
+		w := messages.NewWriter()
+		err := cluster.WriteVersionVector(w, va)
+		if over {
+			if err == nil {
+				h.o.Monitor("cap-not-enforced", in, "WriteVersionVector accepted a vector of more than 65535 entries")
+			}
+			return
+		}
+		if err != nil {
+			h.o.Monitor("roundtrip", in, "WriteVersionVector refused a vector of 65535 entries: "+err.Error())
+			return
+		}
+		bs := append([]byte(nil), w.Bytes()...)
+		rd := messages.NewReader(bs)
+		out, err := cluster.ReadVersionVector(rd)
+		if err != nil {
+			h.o.Monitor("roundtrip", in, "Read(Write(v)) failed for 65535 entries: "+err.Error())
+			return
+		}
+		if !same(cluster.XVDump(out), a) || rd.Pos() != len(bs) {
+			h.o.Monitor("roundtrip", in, "Read(Write(v)) != v for 65535 entries")
+		}
+	})
+}
+
 func (h *H) read(bs []byte, orig vec, expectOrig bool) {
 	in := lib.L(lib.N(6), lib.B(bs))
 	h.guard("read", in, func() {
@@ -377,15 +407,22 @@ func main() {
 		h.binary(a, b)
 		h.triple(a, b, c)
 	}
-	// a big vector at the entry cap (write must refuse > 65535 entries)
+	// big vectors: 3000 entries against the model (the extracted model is quadratic in the entry count), and the
+	// entry cap itself (write must refuse > 65535 entries, 65535 entries round-trip) on the implementation only
 	if f.Tier == "thorough" {
+		mid := vec{}
+		for i := 0; i < 3000; i++ {
+			mid[fmt.Sprintf("n%05d", i)] = uint64(i)
+		}
+		h.unary(mid, r, []string{"n00000", "n02999", "zz"})
 		big := vec{}
 		for i := 0; i < 65536; i++ {
 			big[fmt.Sprintf("n%05d", i)] = uint64(i)
 		}
-		h.unary(big, r, []string{"n00000"})
+		h.capBoundary(big, true)
 		delete(big, "n00000")
-		h.unary(big, r, []string{"n00001"})
+		h.capBoundary(big, false)
+		o.Info["cap_boundary"] = "65536 entries refused, 65535 entries round-trip: implementation-side monitors only"
 	}
 	// raw garbage through the reader
 	for i := 0; i < n/2; i++ {
